@@ -136,6 +136,8 @@ func (r *rawEnd) Send(p []byte)              { r.c.in.Write(p) }
 func (r *rawEnd) End(err error)              { r.c.in.finish(err) }
 func (r *rawEnd) Read(p []byte) (int, error) { return r.c.out.Read(p) }
 func (r *rawEnd) LibClosed() <-chan struct{} { return r.c.closed }
+func (r *rawEnd) RefuseWrites()              { r.c.out.closeRead() } // the library's next write to the transport fails
+func (r *rawEnd) Written() int               { r.c.out.mu.Lock(); defer r.c.out.mu.Unlock(); return r.c.out.total }
 func (r *rawEnd) SetChunk(n int)             { r.c.in.mu.Lock(); r.c.in.chunk = n; r.c.in.mu.Unlock() }
 func (r *rawEnd) Stall(on bool) {
 	r.c.out.mu.Lock()
